@@ -18,7 +18,7 @@ def shared_loop() -> DetLoop:
 
 
 class Outcome:
-    __slots__ = ("messages", "error", "error_msg", "limit", "tail", "upgraded", "eof_error", "eof_msg", "other_exc", "retained_max")
+    __slots__ = ("messages", "error", "error_msg", "limit", "tail", "upgraded", "eof_error", "eof_msg", "other_exc", "retained_max", "unusable_url")
 
     def __init__(self) -> None:
         self.messages: list[dict] = []
@@ -31,6 +31,7 @@ class Outcome:
         self.eof_msg: Any = None
         self.other_exc: BaseException | None = None  # non-HttpProcessingError escaping feed_data/feed_eof
         self.retained_max = 0
+        self.unusable_url = False  # a delivered request carries a URL object that raises when read
 
     def canon(self, bodies: bool = True):
         ms = []
@@ -81,7 +82,17 @@ def drive(kind: str, stream: bytes, cuts=(), *, limits: dict | None = None, read
     def record(msg, payload) -> None:
         d: dict[str, Any] = {}
         if kind == "request":
-            d.update(method=msg.method, path=msg.path, version=tuple(msg.version), url=str(msg.url))
+            try:
+                u = msg.url
+                url_s = str(u)
+                # what web.BaseRequest reads from it
+                u.host, u.port, u.raw_path, u.query_string, u.scheme, u.path
+            except Exception as e:  # noqa: BLE001 - the parser handed out a URL that cannot be used
+                url_s = f"<unusable: {type(e).__name__}>"
+                if out.other_exc is None:
+                    out.other_exc = e
+                    out.unusable_url = True
+            d.update(method=msg.method, path=msg.path, version=tuple(msg.version), url=url_s)
         else:
             d.update(code=msg.code, reason=msg.reason, version=tuple(msg.version))
         d.update(raw_headers=tuple((bytes(a), bytes(b)) for a, b in msg.raw_headers), should_close=msg.should_close,
